@@ -1,5 +1,6 @@
 //@unit ipq
 //@props C20
+//@closed src=nexosim/src/util/indexed_priority_queue.rs impl=`impl<K: Copy \+ Ord, V> IndexedPriorityQueue<K, V>`
 //@verus --rlimit 100 --triggers-mode silent
 // Unit ipq: util/indexed_priority_queue.rs, whole file: IndexedPriorityQueue::{new,with_capacity,len,insert,pull,peek,
 // peek_key,extract,sift_up,sift_down}, Node::unwrap_*, InsertKey::{from,into}_raw_parts and all type definitions.
